@@ -40,7 +40,25 @@ class _Return(Exception):
 
 
 class _Raised(Exception):
-    pass
+    exc: Any = None  # the exception object when an evaluated expression raised it (a behaviour of the extracted code)
+
+
+def _handler_matches(h: ast.ExceptHandler, ex: "_Raised") -> bool:
+    """Handler selection by name; built-in exception classes also by their hierarchy (UnicodeEncodeError is a UnicodeError)."""
+    import builtins
+    if h.type is None:
+        return True
+    name = str(ex).split("(")[0].strip()
+    types_ = h.type.elts if isinstance(h.type, ast.Tuple) else [h.type]
+    for t in types_:
+        txt = unparse(t)
+        last = txt.split(".")[-1]
+        if str(ex) in txt or last in str(ex):
+            return True
+        rc, hc = getattr(builtins, name.split(".")[-1], None), getattr(builtins, last, None)
+        if isinstance(rc, type) and isinstance(hc, type) and issubclass(rc, BaseException) and issubclass(rc, hc):
+            return True
+    return False
 
 
 def _own_yield(fd: ast.AST) -> bool:
@@ -72,7 +90,9 @@ class Interp:
         except (_Continue, _Break, _Raised, _Return, AnalysisError):
             raise
         except self.behaviours as ex:  # a behaviour of the extracted code, not of the stubs
-            raise _Raised(type(ex).__name__)
+            rz = _Raised(type(ex).__name__)
+            rz.exc = ex
+            raise rz
         except Exception as ex:
             raise AnalysisError(f"tabulation: cannot evaluate {unparse(e)[:80]!r}: {type(ex).__name__}: {ex}")
 
@@ -177,8 +197,12 @@ class Interp:
                     ast.fix_missing_locations(s)
                 try:
                     exec(compile(ast.Module(body=[s], type_ignores=[]), "<extracted>", "exec"), self.env)  # noqa: S102
-                except (IndexError, KeyError) as ex:
-                    raise _Raised(type(ex).__name__)
+                except (_Continue, _Break, _Raised, _Return, AnalysisError):
+                    raise
+                except self.behaviours as ex:
+                    rz = _Raised(type(ex).__name__)
+                    rz.exc = ex
+                    raise rz
                 except Exception as ex:
                     raise AnalysisError(f"tabulation: cannot execute {unparse(s)[:80]!r}: {type(ex).__name__}: {ex}")
             elif isinstance(s, ast.Continue):
@@ -210,7 +234,9 @@ class Interp:
                     self.run(s.body)
                 except _Raised as ex:
                     for h in s.handlers:
-                        if h.type is None or str(ex) in unparse(h.type) or unparse(h.type).split(".")[-1] in str(ex):
+                        if _handler_matches(h, ex):
+                            if h.name:
+                                self.env[h.name] = getattr(ex, "exc", None) or Exception(str(ex))
                             self.run(h.body)
                             break
                     else:
@@ -367,13 +393,21 @@ def _class_attr(prog: Any, cq: str, env: dict[str, Any], kw: dict[str, Any], nam
         for st in c.assigns.get(name, []):
             v = getattr(st, "value", None)
             if v is not None:
+                # a class attribute is one object shared by all instances: with a "__class_state__" dict in the rule's
+                # environment its value is built once (mutations are seen by later calls, as at run time)
+                state = env.get("__class_state__")
+                if state is not None and (q, name) in state:
+                    return state[(q, name)]
                 try:
-                    return const_eval(prog, c.module, v)
+                    val = const_eval(prog, c.module, v)
                 except Exception:
                     try:
-                        return Interp(module_env(prog, c.module, env, kw), **kw).ev(v)
+                        val = Interp(module_env(prog, c.module, env, kw), **kw).ev(v)
                     except AnalysisError:
                         raise AnalysisError(f"tabulation: class attribute {q}.{name} is not evaluable")
+                if state is not None:
+                    state[(q, name)] = val
+                return val
     raise AttributeError(name)
 
 
